@@ -239,7 +239,10 @@ PROPS.update({
         "level": "exploration",
         "rule": "three layers of untrusted inputs, all with overflow checks on: L1 random bytes; L2 byte-level mutations (flip, insert, delete, splice, truncate, number -> extreme, continuation-digit runs) of every fixture under /repo/tests/fixtures and of generated documents; L3 structure-aware hostile documents (extreme numbers incl. 62-bit VLQ values and negative running sums, wrong types, missing / repeated keys, mismatched array lengths, sections with offsets up to 2^32-1 nested up to 3 (random) and 1..200 (explicit chain), hostile rangeMappings / ignoreList / debug ids / Hermes payloads); every input goes through 17 entry-point calls and, when a map comes back, ~40-100 follow-up actions; non-trivial = input that decodes or is rejected by the crate's own logic (not by the JSON parser); distinct by hash of the bytes",
         "hang_is_violation": True,
-        "steps": [MAIN, asan(scale=5), miri(mode="miri", tiers=("thorough",), nshards=16),
+        "steps": [MAIN, asan(scale=5),
+                  # Tree Borrows: hostile documents carry rangeMappings, and Stacked Borrows flags bitvec 1.1.1
+                  # internals on BitVec::resize (dependency code, DESIGN.md section 9)
+                  miri(mode="miri", tiers=("thorough",), nshards=16, flags="-Zmiri-disable-isolation -Zmiri-tree-borrows"),
                   {"name": "fuzz", "flavour": "fuzz", "tiers": ("thorough",), "seconds": 600, "forks": 16, "count_distinct": False}],
         "required_buckets": {"all": ["decoded-ok:regular", "decoded-ok:hermes", "decoded-ok:index", "decoded-ok-in:L2", "decoded-ok-in:L3",
                                      "rejected-by-the-crate's-own-logic", "rejected-as-json", "L2:fixture", "L3:extreme-numbers-in-mappings",
